@@ -41,7 +41,8 @@ static INIT: Once = Once::new();
 
 #[unsafe(no_mangle)]
 pub extern "C" fn redirectionio_log_init_stderr() {
-    stderrlog::new().init().unwrap();
+    // A host may come here twice, or after the callback logger was set: the logger in place stays, nothing to abort for
+    let _ = stderrlog::new().init();
 }
 
 #[unsafe(no_mangle)]
@@ -52,8 +53,7 @@ pub unsafe extern "C" fn redirectionio_log_init_with_callback(callback: redirect
     };
 
     INIT.call_once(|| {
-        log::set_boxed_logger(Box::new(logger))
-            .map(|()| log::set_max_level(log::LevelFilter::Trace))
-            .expect("cannot set logger");
+        // Fails when the stderr logger was set before: that one stays
+        let _ = log::set_boxed_logger(Box::new(logger)).map(|()| log::set_max_level(log::LevelFilter::Trace));
     });
 }
